@@ -848,7 +848,7 @@ static void runLogFileFree(const std::vector<string>& hdr)
       bool all = true;
       for (int t = 0; t < T; ++t) if (!ws[t]->done.load()) all = false;
       if (all) break;
-      usleep(500);
+      usleep(200);
       g_vnow.fetch_add(1);
     }
     for (int t = 0; t < T; ++t) pthread_join(ws[t]->th, NULL);
